@@ -27,21 +27,30 @@ def build(tier, seed, exclude):
             err = AP.c15({shape!r}, {ch}, None if kk == 0 else kk)
             return T.fail(err) if err else True
         """, timeout=to)
+        g.cond(f"h_async_rerun_{shape}", params, pre, f"""
+            kk = T.real(k)
+            err = AP.c15({shape!r}, {ch}, None if kk == 0 else kk, warm_rerun=True, all_complete={'C15-stale-result-on-rerun' in exclude})
+            return T.fail(err) if err else True
+        """, timeout=to)
     # the synchronous loop (debug worker)
     g.cond("h_sync", "which: bool, k: int", ["0 <= k <= 3"], """
         import vf.engine as E, vf.rec as R
         from vf.hl import engdefs as D
         shape = "forkjoin" if T.real(which) else "indep"
+        from vf.hl import sched as S
+        S.install(); S.reset()
         E.reset(); R.clear()
         d = E.scratch()
         kw = {} if T.real(k) == 0 else {"max_concurrent": T.real(k)}
         try:
             out = AP.SHAPES[shape]["make"](1, set())(cache_root=d, worker="debug", **kw)
+        except S.BudgetExceeded as e:
+            return T.fail(lambda: "sync loop with %s makes no progress: %s" % (kw, e))
         finally:
             E.cleanup(d)
         T.reach()
         nodes = AP.SHAPES[shape]["nodes"]
-        order = [b[2] for b in R.LOG]
+        order = [AP.tag_of(b) for b in R.LOG]
         pos = {t: i for i, t in enumerate(order)}
         for n, (t, deps) in nodes.items():
             if order.count(t) != 1 or any(pos[nodes[dn][0]] > pos[t] for dn in deps):
@@ -52,4 +61,8 @@ def build(tier, seed, exclude):
         err = AP.c15("indep", [T.real(c0)])
         return False
     """, timeout=120, kind="twin")
+    g.witness("w_stale_rerun", """
+        err = AP.c15("indep", [0, 0, 0, 0, 2, 1], None, warm_rerun=True) or AP.c15("indep", [0, 0, 0, 0, 1, 0], None, warm_rerun=True)
+        return T.fail(err) if err else True
+    """)
     return g.spec(bounds={"shapes": ["indep", "forkjoin"], "schedule": f"{NS} ternary decisions", "max_concurrent": "unlimited, 1, 2, 3"})
